@@ -333,6 +333,7 @@ func vfC03opts() cargen.GenOpts {
 func TestVfC03(t *testing.T) {
 	run := vfh.Begin("C03", "absent-keys")
 	defer run.End(t)
+	vfArmWatch(run, "C03")
 	run.Require("skipped-slot", "colliding-slot", "colliding-signature", "colliding-cid", "single-epoch", "multi-epoch", "unloaded-epoch")
 	addrKnown := vfh.KnownOpen("C03", "absent-address-colliding-in-pubkey-index")
 	reproduced := 0
